@@ -367,7 +367,9 @@ def add_producer_side(b, rng, fe, focus='c04', tokens=False, lp_prob=0.1, transp
                     replies.append({'delay_us': None, 'content': rand_reply_size(rng)})
             elif rng.random() < 0.3:
                 replies.append({'delay_us': rng.choice([0, 1000]), 'content': rand_reply_size(rng)})
-            b.op(t, 'attach', hid=hid, prefix=pfx, repr=rng.choice(REPRS), validator=vs, replies=replies)
+            aop = b.op(t, 'attach', hid=hid, prefix=pfx, repr=rng.choice(REPRS), validator=vs, replies=replies)
+            if rng.random() < 0.06 and aop is not None:
+                aop['falsy_handler'] = True
             attached.append(pfx)
         elif x < 0.5 and attached:
             pfx = rng.choice(attached if rng.random() < 0.8 else prefixes)
